@@ -1213,3 +1213,34 @@ func TestVerifC14Hostile(t *testing.T) {
 		vfstat.Sample(U, fmt.Sprint(alg), map[string]any{"alg": alg, "key_octets": klen, "sig_octets": slen, "rejected_in": d.String()})
 	})
 }
+
+// FuzzVerifC14Signatures puts the same generated case and the same judge under Go's coverage-guided fuzzer
+// (thorough tier): the fuzzer's bytes drive rapid's generators, so coverage feedback steers key / signature /
+// RRset / mutation choices towards verifier paths random sampling reaches rarely.
+func FuzzVerifC14Signatures(f *testing.F) {
+	vfC14Init(f)
+	vfstat.Quiet()
+	// starting corpus: fixed pseudo-random byte strings, i.e. a spread of ordinary generated cases for the fuzzer to mutate
+	x := uint64(0x9e3779b97f4a7c15)
+	for i := 0; i < 96; i++ {
+		b := make([]byte, 4096)
+		for j := range b {
+			x ^= x << 13
+			x ^= x >> 7
+			x ^= x << 17
+			b[j] = byte(x >> 24)
+		}
+		f.Add(b)
+	}
+	f.Fuzz(rapid.MakeFuzz(func(rt *rapid.T) {
+		c := vfC14GenCase(rt)
+		o, violation, modelbug := vfC14Judge(c)
+		if modelbug != "" {
+			rt.Skip("harness self-check: " + modelbug)
+		}
+		if violation != "" {
+			b, _ := json.Marshal(vfC14Render(c, o))
+			rt.Fatalf("VERIF-VIOLATION %s\ncase: %s", violation, b)
+		}
+	}))
+}
